@@ -60,6 +60,7 @@ func NormalizeLoops(fns []*Function, opt UnrollOptions) []string {
 		}
 		if changed {
 			scalarizeStructCopies(f)
+			scalarizeArrayValueReads(f)
 		}
 		if k := forwardAggregates(f); k > 0 {
 			notes = append(notes, fmt.Sprintf("%s: %d load(s) of local table entries replaced by the stored values", f.String(), k))
@@ -294,7 +295,24 @@ func constLen(v Value, env map[Value]constant.Value, depth int) (int64, bool) {
 			}
 		}
 		if n < 0 {
-			return 0, false
+			// a slice of a slice: the bounds decide (b[8:16] has 8 elements whenever it exists at all); an open
+			// upper end takes the base's length
+			if depth > 6 {
+				return 0, false
+			}
+			if x.High == nil {
+				bn, ok := constLen(x.X, env, depth+1)
+				if !ok {
+					return 0, false
+				}
+				n = bn
+			} else {
+				c, ok := evalConst(x.High, env, depth+1)
+				if !ok {
+					return 0, false
+				}
+				n, _ = constant.Int64Val(c)
+			}
 		}
 		lo, hi := int64(0), n
 		if x.Low != nil {
@@ -1151,6 +1169,34 @@ func forwardAggregates(f *Function) int {
 				}
 				uniqueStore := func(path string, load Instruction) *Store {
 					var s *Store
+					// several stores to the cell (a variable reused by every iteration of an unrolled loop): the
+					// last one that precedes the load in the load's own block is the one it reads
+					{
+						exact := true
+						for q := range stores {
+							if related(path, q) && q != path {
+								exact = false
+							}
+						}
+						if exact && len(stores[path]) > 1 {
+							var last *Store
+							for _, x := range load.Block().Instrs {
+								if x == load {
+									break
+								}
+								if st, ok := x.(*Store); ok {
+									for _, c := range stores[path] {
+										if c == st {
+											last = st
+										}
+									}
+								}
+							}
+							if last != nil {
+								return last
+							}
+						}
+					}
 					for q, ss := range stores {
 						if !related(path, q) {
 							continue
@@ -1670,6 +1716,89 @@ func scalarizeStructCopies(f *Function) bool {
 		}
 	}
 	if any {
+		rebuild(f)
+	}
+	return any
+}
+
+// scalarizeArrayValueReads rewrites `v := *arr; ... v[k]` (a whole-array load of a local array that is only
+// indexed by constants afterwards: what `for _, x := range [...]T{...}` becomes once unrolled) into one
+// element load per use, taken where the whole-array load was, so that the elements are independent cells for
+// forwardAggregates.
+func scalarizeArrayValueReads(f *Function) bool {
+	any := false
+	for _, b := range f.Blocks {
+		var out []Instruction
+		changed := false
+		for _, ins := range b.Instrs {
+			ld, ok := ins.(*UnOp)
+			if !ok || ld.Op != token.MUL {
+				out = append(out, ins)
+				continue
+			}
+			al, ok := ld.X.(*Alloc)
+			if !ok {
+				out = append(out, ins)
+				continue
+			}
+			at, ok := ld.Type().Underlying().(*types.Array)
+			if !ok || at.Len() > 64 || ld.Referrers() == nil || len(*ld.Referrers()) == 0 {
+				out = append(out, ins)
+				continue
+			}
+			okAll := true
+			for _, r := range *ld.Referrers() {
+				ix, isIx := r.(*Index)
+				if !isIx || ix.X != Value(ld) {
+					okAll = false
+					break
+				}
+				if c, isC := ix.Index.(*Const); !isC || c.Value == nil || c.Value.Kind() != constant.Int {
+					okAll = false
+					break
+				}
+			}
+			if !okAll {
+				out = append(out, ins)
+				continue
+			}
+			byIdx := map[string]Value{}
+			for _, r := range *ld.Referrers() {
+				ix := r.(*Index)
+				k := ix.Index.(*Const).Value.ExactString()
+				nv, have := byIdx[k]
+				if !have {
+					ea := &IndexAddr{X: al, Index: ix.Index}
+					ea.setType(types.NewPointer(at.Elem()))
+					ea.setBlock(b)
+					ev := &UnOp{Op: token.MUL, X: ea}
+					ev.setType(at.Elem())
+					ev.setBlock(b)
+					out = append(out, ea, ev)
+					byIdx[k] = ev
+					nv = ev
+				}
+				replaceAll(ix, nv)
+				ix.X = nil // marks it dead (removed below)
+			}
+			changed = true
+		}
+		if changed {
+			b.Instrs = out
+			any = true
+		}
+	}
+	if any {
+		for _, b := range f.Blocks {
+			kept := b.Instrs[:0]
+			for _, ins := range b.Instrs {
+				if ix, ok := ins.(*Index); ok && ix.X == nil {
+					continue
+				}
+				kept = append(kept, ins)
+			}
+			b.Instrs = kept
+		}
 		rebuild(f)
 	}
 	return any
